@@ -25,3 +25,8 @@ func VerifNegateUnmarshal(s string) (bool, error) {
 	err := nc.UnmarshalText([]byte(s))
 	return bool(nc), err
 }
+
+func VerifResourceTypeAtPath(prefix, reqPath string) int {
+	b := backend{Prefix: prefix}
+	return int(b.resourceTypeAtPath(reqPath))
+}
